@@ -260,4 +260,47 @@ Section Gen.
       exists b1. split; [exact Hw | exact Hi].
   Qed.
 
+  (* ---------------------------------------------------------------- *)
+  (* A row-major m x n array seen as a function of (row, column).       *)
+  Definition Mat (m n : nat) (g : nat -> nat -> T) (l : list T) : Prop :=
+    length l = m * n /\ forall i j, i < m -> j < n -> nth (i * n + j) l d = g i j.
+
+  Lemma Mat_ext m n g g' l :
+    Mat m n g l -> (forall i j, i < m -> j < n -> g i j = g' i j) -> Mat m n g' l.
+  Proof. intros [Hl H] E. split; [assumption|]. intros; rewrite H; auto. Qed.
+
+  Lemma Mat_load m n g l i j idx :
+    Mat m n g l -> i < m -> j < n -> idx = i * n + j -> load T l idx = Ok (g i j).
+  Proof.
+    intros [Hl H] Hi Hj ->. rewrite load_ok by (rewrite Hl; apply idx_lt; assumption).
+    rewrite H by assumption. reflexivity.
+  Qed.
+
+  Lemma Mat_store m n g b i j idx v :
+    Mat m n g (cells b) -> i < m -> j < n -> idx = i * n + j ->
+    exists b', store T idx v b = Ok b' /\ nwr b' = S (nwr b) /\
+               Mat m n (fun i' j' => if (i' =? i) && (j' =? j) then v else g i' j') (cells b').
+  Proof.
+    intros [Hl H] Hi Hj ->.
+    assert (Hlt : i * n + j < length (cells b)) by (rewrite Hl; apply idx_lt; assumption).
+    eexists. split; [apply store_ok; assumption|]. simpl. split; [reflexivity|].
+    split; [rewrite upd_length; assumption|].
+    intros i' j' Hi' Hj'.
+    destruct (Nat.eqb_spec i' i) as [->|Hne]; simpl.
+    - destruct (Nat.eqb_spec j' j) as [->|Hne].
+      + apply nth_upd_same; assumption.
+      + rewrite nth_upd_other by lia. apply H; assumption.
+    - rewrite nth_upd_other; [apply H; assumption|].
+      intros E. apply idx_inj in E; [|assumption|assumption]. lia.
+  Qed.
+
+  Lemma Mat_of_list m n l : length l = m * n -> Mat m n (fun i j => nth (i * n + j) l d) l.
+  Proof. intros H. split; auto. Qed.
+
+  Lemma Mat_nth m n g l i j : Mat m n g l -> i < m -> j < n -> nth (i * n + j) l d = g i j.
+  Proof. intros [_ H]. apply H. Qed.
+
+  Lemma Mat_length m n g l : Mat m n g l -> length l = m * n.
+  Proof. intros [H _]. exact H. Qed.
+
 End Gen.
